@@ -51,8 +51,9 @@ func eccentricArc(segs []oracle.Seg) bool {
 	for _, s := range segs {
 		if s.Cmd == oracle.ArcTo {
 			rx, ry := s.Args[0], s.Args[1]
-			if math.Min(rx, ry)/math.Max(rx, ry) < 0.5 && math.Abs(s.ArcOf().Dth) > math.Pi/2 {
-				return true
+			ratio := math.Min(rx, ry) / math.Max(rx, ry)
+			if ratio < 0.5 && math.Abs(s.ArcOf().Dth) > math.Pi/2 || ratio < 0.15 {
+				return true // long arcs of eccentric ellipses, and needle ellipses at any sweep
 			}
 		}
 	}
@@ -256,7 +257,14 @@ func checkSplit(c SCase, r *vf.R) error {
 		size = math.Max(size, oracle.SegBounds(s, 16).Size())
 	}
 	// near-coincident cuts or cuts at segment joints may legitimately merge: compare counts loosely, geometry strictly
-	if len(pieces) < 1 || len(pieces) > len(cuts)+1 {
+	// a requested position within the position tolerance of an end may be realised as a cut just inside the path: the upper bound counts every distinct requested position
+	maxPieces := 1
+	for i, v := range sorted {
+		if i == 0 || v-sorted[i-1] > 1e-9*L {
+			maxPieces++
+		}
+	}
+	if len(pieces) < 1 || len(pieces) > maxPieces {
 		return vf.Errorf("SplitAt(%v) of a path of length %v returned %d pieces, expected at most %d", ts, L, len(pieces), len(cuts)+1)
 	}
 	var all []oracle.Seg
@@ -282,7 +290,7 @@ func checkSplit(c SCase, r *vf.R) error {
 			}
 		}
 		st := ps[0].End()
-		if prevEnd != nil && prevEnd.Dist(st) > 1e-9*size {
+		if prevEnd != nil && prevEnd.Dist(st) > 1e-9*size && !subpathBoundary(segs, *prevEnd, st, 1e-9*size) {
 			return vf.Errorf("piece %d starts at %v but piece %d ended at %v", k, st, k-1, *prevEnd)
 		}
 		e := ps[len(ps)-1].End()
@@ -346,6 +354,17 @@ func checkSplit(c SCase, r *vf.R) error {
 		r.Class("merged-cuts")
 	}
 	return nil
+}
+
+// subpathBoundary reports whether a is the end of a subpath of segs and b the start of the next one: a cut that
+// falls on the end of a subpath leaves the following piece to start with the next subpath.
+func subpathBoundary(segs []oracle.Seg, a, b oracle.Pt, tol float64) bool {
+	for i := 1; i < len(segs); i++ {
+		if segs[i].Cmd == oracle.MoveTo && segs[i-1].End().Dist(a) <= tol && segs[i].End().Dist(b) <= tol {
+			return true
+		}
+	}
+	return false
 }
 
 func TestSplitAt(t *testing.T) {
